@@ -708,6 +708,7 @@ void h_lock(void)
     else VF_NCHECK(sp.data.ptr == NULL && HARD(b) == 0 && SOFT(b) == vf_w_soft, "lock yields nothing once the last owner is gone; counters restored");
     VF_NCHECK(cstl_shared_ptr_get(&sp) == (vf_w_hard >= 1 ? b->up.gp.ptr : NULL), "get of the locked pointer");
 }
+#ifndef VF_SHARE_OCCUPIED
 void h_share(void)
 {
     vf_blk_t * b = vf_nat_build();
@@ -717,6 +718,7 @@ void h_share(void)
     cstl_shared_ptr_share(&vf_sp[0], &n);
     VF_NCHECK(n.data.ptr == (void *)b && HARD(b) == vf_w_hard + 1 && SOFT(b) == vf_w_soft + 1 && vf_nclr == 0, "share into an empty pointer: +1/+1");
 }
+#endif
 void h_same_block(void)
 {
     vf_blk_t * b = vf_nat_build();
@@ -726,7 +728,216 @@ void h_same_block(void)
     cstl_weak_ptr_lock(&vf_wp[0], &vf_sp[1]);
     VF_NCHECK(HARD(b) == vf_w_hard && SOFT(b) == vf_w_soft && vf_nclr == 0, "lock onto a co-owner: counters unchanged");
 }
+#ifdef VF_STRAY
+/* C20 replay: a bitwise copy (with a NULL and with a live pointer) in the chosen argument position
+ * must end in abort(); the other argument is a properly initialised empty object */
+int vf_try(void (*fn)(void *), void * arg);
+static void vf_stray_call(void * x)
+{
+    void ** g = x; void * s = g[0], * e = g[1];
+    (void)s; (void)e;
+#if VF_STRAY == 1
+    cstl_guarded_ptr_get_const(s);
+#elif VF_STRAY == 2
+    cstl_guarded_ptr_copy(e, s);
+#elif VF_STRAY == 3
+    cstl_guarded_ptr_swap(s, e);
+#elif VF_STRAY == 4
+    cstl_guarded_ptr_swap(e, s);
+#elif VF_STRAY == 5
+    cstl_unique_ptr_get_const(s);
+#elif VF_STRAY == 6
+    cstl_unique_ptr_release(s, NULL, NULL);
+#elif VF_STRAY == 7
+    cstl_unique_ptr_swap(s, e);
+#elif VF_STRAY == 8
+    cstl_unique_ptr_swap(e, s);
+#elif VF_STRAY == 9
+    cstl_unique_ptr_reset(s);
+#elif VF_STRAY == 10
+    cstl_unique_ptr_alloc(s, 8, NULL, NULL);
+#elif VF_STRAY == 11
+    cstl_shared_ptr_get_const(s);
+#elif VF_STRAY == 12
+    cstl_shared_ptr_unique(s);
+#elif VF_STRAY == 13
+    cstl_shared_ptr_share(s, e);
+#elif VF_STRAY == 14
+    cstl_shared_ptr_share(e, s);
+#elif VF_STRAY == 15
+    cstl_shared_ptr_swap(s, e);
+#elif VF_STRAY == 16
+    cstl_shared_ptr_swap(e, s);
+#elif VF_STRAY == 17
+    cstl_shared_ptr_reset(s);
+#elif VF_STRAY == 18
+    cstl_shared_ptr_alloc(s, 8, NULL);
+#elif VF_STRAY == 19
+    cstl_weak_ptr_from(s, e);
+#elif VF_STRAY == 20
+    cstl_weak_ptr_from(e, s);
+#elif VF_STRAY == 21
+    cstl_weak_ptr_lock(s, e);
+#elif VF_STRAY == 22
+    cstl_weak_ptr_lock(e, s);
+#elif VF_STRAY == 23
+    cstl_weak_ptr_reset(s);
+#endif
+}
+void h_stray(void)
+{
+    int live;
+    for (live = 0; live < 2; live++) {
+        union { struct cstl_guarded_ptr gp; cstl_unique_ptr_t up; cstl_shared_ptr_t sp; } orig, copy, other;
+        void * g[2]; int sig;
+        memset(&orig, 0, sizeof(orig)); memset(&other, 0, sizeof(other));
+#if VF_STRAY <= 4
+        cstl_guarded_ptr_init(&orig.gp); cstl_guarded_ptr_init(&other.gp);
+        if (live) cstl_guarded_ptr_set(&orig.gp, &live);
+#elif VF_STRAY <= 10
+        cstl_unique_ptr_init(&orig.up); cstl_unique_ptr_init(&other.up);
+        if (live) cstl_unique_ptr_alloc(&orig.up, 16, NULL, NULL);
+#else
+        cstl_shared_ptr_init(&orig.sp); cstl_shared_ptr_init(&other.sp);
+        if (live) cstl_shared_ptr_alloc(&orig.sp, 16, NULL);
+#endif
+        memcpy(&copy, &orig, sizeof(copy));          /* the stray copy: its stamp still names `orig` */
+        g[0] = &copy; g[1] = &other;
+        sig = vf_try(vf_stray_call, g);
+        printf("stray copy (%s pointer): signal %d\n", live ? "live" : "NULL", sig);
+        VF_NCHECK(sig == SIGABRT, "a call through a bitwise copy aborts, whether or not the pointer is NULL");
+    }
+}
+struct vf_harness { const char * name; void (*fn)(void); };
+struct vf_harness vf_harnesses[] = { { "h_stray", h_stray }, { NULL, NULL } };
+#else
+/* a second allocation B in state (hard2, soft2), for the "occupied target" variants */
+static cstl_shared_ptr_t vf_sp2[NMAX];
+static cstl_weak_ptr_t vf_wp2[NMAX];
+static size_t vf_nclr2;
+static void vf_nclr2_cb(void * p, void * priv) { (void)priv; memset(p, 0x5a, 1); vf_nclr2++; }
+static vf_blk_t * vf_nat_build2(void)
+{
+    size_t i;
+    VF_IN_SIZE(hard2); VF_IN_SIZE(soft2);
+    VF_ASSUME(vf_w_hard2 <= vf_w_soft2 && vf_w_soft2 >= 1 && vf_w_soft2 < NMAX);
+    for (i = 0; i < NMAX; i++) { cstl_shared_ptr_init(&vf_sp2[i]); cstl_weak_ptr_init(&vf_wp2[i]); }
+    cstl_shared_ptr_alloc(&vf_sp2[0], 8, vf_w_has_clr ? vf_nclr2_cb : NULL);
+    VF_ASSUME(cstl_shared_ptr_get(&vf_sp2[0]) != NULL);
+    for (i = 1; i < (vf_w_hard2 ? vf_w_hard2 : 1); i++) cstl_shared_ptr_share(&vf_sp2[0], &vf_sp2[i]);
+    for (i = 0; i < vf_w_soft2 - (vf_w_hard2 ? vf_w_hard2 : 1) + (vf_w_hard2 ? 0 : 1); i++) cstl_weak_ptr_from(&vf_wp2[i], &vf_sp2[0]);
+    if (vf_w_hard2 == 0) cstl_shared_ptr_reset(&vf_sp2[0]);
+    vf_nclr2 = 0;
+    return (vf_blk_t *)(vf_w_hard2 ? vf_sp2[0].data.ptr : vf_wp2[0].data.ptr);
+}
+/* the owner / weak reference that let go of B: counters, destruction exactly at the last owner */
+static void vf_nat_b_released(vf_blk_t * b, int was_owner)
+{
+    VF_NCHECK(vf_nclr2 == ((was_owner && vf_w_hard2 == 1 && vf_w_has_clr) ? 1 : 0), "the other allocation is cleared exactly when its last owner lets go");
+    if (vf_w_soft2 > 1) {
+        VF_NCHECK(HARD(b) == vf_w_hard2 - (was_owner ? 1 : 0) && SOFT(b) == vf_w_soft2 - 1, "the other allocation loses exactly the reference the target held");
+    }
+}
+#if defined(VF_SHARE_OCCUPIED)
+void h_share(void)
+{
+    vf_blk_t * a = vf_nat_build(), * b;
+    VF_ASSUME(vf_w_hard >= 1);
+    b = vf_nat_build2();
+    VF_ASSUME(vf_w_hard2 >= 1);
+    cstl_shared_ptr_share(&vf_sp[0], &vf_sp2[0]);
+    VF_NCHECK(vf_sp2[0].data.ptr == (void *)a && HARD(a) == vf_w_hard + 1 && SOFT(a) == vf_w_soft + 1 && vf_nclr == 0, "share onto an owner of another allocation: +1/+1 on the shared one");
+    vf_nat_b_released(b, 1);
+}
+#define VF_HAVE_SHARE
+#endif
+#if defined(VF_WEAK_FROM) || defined(VF_WEAK_FROM_OCCUPIED)
+void h_weak_from(void)
+{
+    vf_blk_t * a = vf_nat_build();
+    VF_ASSUME(vf_w_hard >= 1);
+#ifdef VF_WEAK_FROM_OCCUPIED
+    {
+        vf_blk_t * b = vf_nat_build2();
+        VF_ASSUME(vf_w_hard2 < vf_w_soft2);
+        cstl_weak_ptr_from(&vf_wp2[0], &vf_sp[0]);
+        VF_NCHECK(vf_wp2[0].data.ptr == (void *)a && HARD(a) == vf_w_hard && SOFT(a) == vf_w_soft + 1 && vf_nclr == 0, "weak-from onto a weak reference of another allocation: soft+1 only");
+        vf_nat_b_released(b, 0);
+        if (vf_w_hard2 >= 1) VF_NCHECK(cstl_shared_ptr_get(&vf_sp2[0]) != NULL && vf_nclr2 == 0, "the other allocation's memory stays with its owners");
+    }
+#else
+    {
+        cstl_weak_ptr_t w;
+        cstl_weak_ptr_init(&w);
+        cstl_weak_ptr_from(&w, &vf_sp[0]);
+        VF_NCHECK(w.data.ptr == (void *)a && HARD(a) == vf_w_hard && SOFT(a) == vf_w_soft + 1 && vf_nclr == 0, "weak-from into an empty weak pointer: soft+1 only");
+    }
+#endif
+}
+#define VF_HAVE_WEAK_FROM
+#endif
+#if defined(VF_LOCK_OCCUPIED)
+void h_lock_occ(void)
+{
+    vf_blk_t * a = vf_nat_build(), * b;
+    VF_ASSUME(vf_w_hard < vf_w_soft);
+    b = vf_nat_build2();
+    VF_ASSUME(vf_w_hard2 >= 1);
+    cstl_weak_ptr_lock(&vf_wp[0], &vf_sp2[0]);
+    if (vf_w_hard >= 1) VF_NCHECK(vf_sp2[0].data.ptr == (void *)a && HARD(a) == vf_w_hard + 1 && SOFT(a) == vf_w_soft + 1, "lock onto an owner of another allocation: an owner while one exists");
+    else VF_NCHECK(vf_sp2[0].data.ptr == NULL && HARD(a) == 0 && SOFT(a) == vf_w_soft, "lock yields nothing once the last owner is gone");
+    vf_nat_b_released(b, 1);
+}
+#endif
+void h_wp_reset(void)
+{
+    vf_blk_t * b = vf_nat_build();
+    VF_ASSUME(vf_w_hard < vf_w_soft);
+    cstl_weak_ptr_reset(&vf_wp[0]);
+    VF_NCHECK(vf_wp[0].data.ptr == NULL && vf_nclr == 0, "weak reset: pointer empty, memory untouched");
+    if (vf_w_soft > 1) VF_NCHECK(HARD(b) == vf_w_hard && SOFT(b) == vf_w_soft - 1, "weak reset: soft-1 only");
+}
+void h_unique(void)
+{
+    vf_nat_build();
+    VF_ASSUME(vf_w_hard >= 1);
+    VF_NCHECK(cstl_shared_ptr_unique(&vf_sp[0]) == (vf_w_soft == 1), "unique() <=> no other shared or weak reference");
+}
+void h_get(void)
+{
+    vf_blk_t * b = vf_nat_build();
+    size_t i;
+    VF_ASSUME(vf_w_hard >= 1);
+    for (i = 0; i < vf_w_hard; i++) VF_NCHECK(cstl_shared_ptr_get_const(&vf_sp[i]) == b->up.gp.ptr && b->up.gp.ptr != NULL, "every co-owner's get returns the same address");
+}
+void h_up_reset(void)
+{
+    cstl_unique_ptr_t up;
+    VF_IN_BOOL(own); VF_IN_BOOL(has_clr); VF_IN_SIZE(sz);
+    cstl_unique_ptr_init(&up);
+    if (vf_w_own) { cstl_unique_ptr_alloc(&up, vf_w_sz ? vf_w_sz : 1, vf_w_has_clr ? vf_nclr_cb : NULL, NULL); VF_ASSUME(cstl_unique_ptr_get(&up) != NULL); }
+    vf_nclr = 0;
+    cstl_unique_ptr_reset(&up);
+    VF_NCHECK(cstl_unique_ptr_get(&up) == NULL && vf_nclr == ((vf_w_own && vf_w_has_clr) ? 1 : 0), "unique reset: clear once iff memory with a clear function was held");
+}
 struct vf_harness { const char * name; void (*fn)(void); };
 struct vf_harness vf_harnesses[] = {
-    { "h_sp_reset", h_sp_reset }, { "h_lock", h_lock }, { "h_share", h_share }, { "h_same_block", h_same_block }, { NULL, NULL } };
+    { "h_sp_reset", h_sp_reset },
+#ifdef VF_LOCK_OCCUPIED
+    { "h_lock", h_lock_occ },
+#else
+    { "h_lock", h_lock },
+#endif
+#ifndef VF_HAVE_SHARE
+    { "h_share", h_share },
+#endif
+    { "h_same_block", h_same_block }, { "h_wp_reset", h_wp_reset }, { "h_unique", h_unique }, { "h_get", h_get }, { "h_up_reset", h_up_reset },
+#ifdef VF_HAVE_WEAK_FROM
+    { "h_weak_from", h_weak_from },
+#endif
+#ifdef VF_HAVE_SHARE
+    { "h_share", h_share },
+#endif
+    { NULL, NULL } };
+#endif
 #endif
